@@ -201,12 +201,13 @@ func (r *run) open() bool {
 		if !r.job.Real {
 			r.reportCreates() // a Create that collided with an existing file is a C13 matter
 		}
-		r.out.obs(map[string]any{"ev": "open", "res": "err", "msg": err.Error()})
+		r.out.obs(map[string]any{"ev": "open", "res": "err", "msg": err.Error(), "fault": r.faultFired()})
 		r.dead = true
 		return false
 	}
 	r.w = w
-	r.out.obs(map[string]any{"ev": "open", "res": "ok"})
+	r.rec.ResetInjectedIfCleared()
+	r.out.obs(map[string]any{"ev": "open", "res": "ok", "fault": r.faultFired()})
 	if !r.job.Real {
 		r.reportCreates()
 		r.reportDir("open")
